@@ -112,6 +112,23 @@ func ruleR45(c *Ctx) {
 				if b.Live && b.Kind == cfg.KindForLoop {
 					heads = append(heads, b)
 				}
+				// for { if cursor.pointer == nil { break } … }: a loop without a condition has no
+				// condition block; its body block is where the back edges arrive
+				if fs, ok := b.Stmt.(*ast.ForStmt); ok && b.Live && b.Kind == cfg.KindForBody && fs.Cond == nil {
+					heads = append(heads, b)
+				}
+			}
+			regionOf := func(h *cfg.Block) map[*cfg.Block]bool {
+				if h.Kind == cfg.KindForLoop {
+					return reachableWithout(h.Succs[0], h)
+				}
+				out := map[*cfg.Block]bool{}
+				for _, s := range h.Succs {
+					for b := range reachableWithout(s, h) {
+						out[b] = true
+					}
+				}
+				return out
 			}
 			if len(heads) == 0 {
 				continue
@@ -122,7 +139,7 @@ func ruleR45(c *Ctx) {
 				if len(h.Succs) == 0 {
 					continue
 				}
-				body := reachableWithout(h.Succs[0], h)
+				body := regionOf(h)
 				has := false
 				for b := range body {
 					for _, nd := range b.Nodes {
@@ -139,7 +156,7 @@ func ruleR45(c *Ctx) {
 				continue
 			}
 			n++
-			inLoop := reachableWithout(head.Succs[0], head)
+			inLoop := regionOf(head)
 			// forward dataflow from the loop head: may[b] / must[b] = "moved since the head" at block end
 			may := map[*cfg.Block]bool{}
 			must := map[*cfg.Block]bool{}
